@@ -19,7 +19,7 @@ func init() {
 	register(&Rule{ID: "SH-WORKLIST", Floor: 3,
 		Doc: "for every worklist loop `for len(W) > 0` of the store package: (i) every path through the body to the back edge shortens W; (ii) growth is bounded by a visited set S that is never deleted from — either every append to W is guarded by !S[key] with S[key] = true in the same block (mark on push), or the popped item is tested against S before it is expanded and entered into S on the expanding path (mark on pop); (iii) in the collector (the function that also deletes blobs) the map consulted by the skip test is written only with the key of the popped item; index loops `for i < len(X)` advance i or shorten X on every path",
 		Run: runWorklist})
-	register(&Rule{ID: "SH-MARK-EXHAUSTIVE", Floor: 4,
+	register(&Rule{ID: "SH-MARK-EXHAUSTIVE", Floor: 2,
 		Doc: "in the collector's mark loop every exported Descriptor / []Descriptor field of the image and index manifest structs is consumed: its digest is entered into a keep-set or its descriptor appended to the worklist; the referrers edge (lookup keyed by the popped item's digest, result appended to the worklist) is present",
 		Run: runMarkExhaustive})
 	register(&Rule{ID: "SH-SWEEP-GUARD", Floor: 3,
